@@ -416,6 +416,12 @@ func c19Child() {
 	}
 	debug.SetMemoryLimit(128 << 20)
 	input, _ := io.ReadAll(os.Stdin)
+	if os.Getenv("VERIF_C19_CHILD") == "seq" {
+		vals, jvals, final := c19SeqHere(input)
+		b, _ := json.Marshal(map[string]interface{}{"vals": vals, "jvals": jvals, "final": final})
+		os.Stdout.Write(b)
+		return
+	}
 	o := c19DecodeHere(input)
 	m := map[string]interface{}{"class": o.Cls, "alloc": o.Alloc, "msg": o.Msg}
 	if o.V != nil {
@@ -491,11 +497,9 @@ func c19Dec(o *Out, kind string, input []byte) {
 
 // c19Seq decodes successive values from one stream with a Decoder: the rest
 // left by one value is where the next one starts.
-func c19Seq(o *Out, kind string, input []byte) {
-	in := map[string]interface{}{"t": "seq", "input": hx(input)}
-	var vals []string
-	var jvals []interface{}
-	final := "OErr"
+// c19SeqHere: successive Decode calls on one stream, in this process.
+func c19SeqHere(input []byte) (vals []string, jvals []interface{}, final string) {
+	final = "OErr"
 	func() {
 		defer func() {
 			if r := recover(); r != nil {
@@ -522,6 +526,40 @@ func c19Seq(o *Out, kind string, input []byte) {
 		}
 		final = "OMore"
 	}()
+	return
+}
+
+func c19Seq(o *Out, kind string, input []byte) {
+	in := map[string]interface{}{"t": "seq", "input": hx(input)}
+	var vals []string
+	var jvals []interface{}
+	var final string
+	if !digitRun(input) {
+		vals, jvals, final = c19SeqHere(input)
+	} else {
+		// may announce a huge length: in a child process with a capped address space (see c19Decode)
+		cmd := exec.Command(os.Args[0])
+		cmd.Env = append(os.Environ(), "VERIF_C19_CHILD=seq")
+		cmd.Stdin = bytes.NewReader(input)
+		var stdout, stderr bytes.Buffer
+		cmd.Stdout, cmd.Stderr = &stdout, &stderr
+		err := cmd.Run()
+		var res struct {
+			Vals  []string
+			JVals []interface{}
+			Final string
+		}
+		if err == nil && json.Unmarshal(stdout.Bytes(), &res) == nil && res.Final != "" {
+			vals, jvals, final = res.Vals, res.JVals, res.Final
+		} else {
+			msg := stderr.String()
+			if i := strings.IndexByte(msg, '\n'); i > 0 {
+				msg = msg[:i]
+			}
+			final = "OCrash"
+			jvals = []interface{}{map[string]interface{}{"child": fmt.Sprintf("%v: %s", err, msg)}}
+		}
+	}
 	o.add(Case{Coq: fmt.Sprintf("CSeq %s %s %s", cB(input), cList(vals), final), In: in,
 		Obs: map[string]interface{}{"values": jvals, "final": final}, Kind: kind})
 }
@@ -707,6 +745,11 @@ func c19Garbage(rng *rand.Rand, big int) ([]byte, string) {
 	case 4, 5: // crafted length prefix in front of some payload, possibly nested
 		pre := c19LenPrefixes[rng.Intn(len(c19LenPrefixes))]
 		pay := c19RandBytes(rng, rng.Intn(12))
+		if rng.Intn(3) == 0 {
+			// ... with MORE than one reader buffer of payload behind it: a decoder must not start trusting the announced
+			// length because "some data did arrive"
+			pay = c19RandBytes(rng, []int{4095, 4096, 4097, 8192, 12288, 20000}[rng.Intn(6)])
+		}
 		s := pre + ":" + string(pay)
 		switch rng.Intn(4) {
 		case 0:
